@@ -222,6 +222,16 @@ def handle (op : String) (args : List String) (impl : Impl) : Option Ans :=
       | .other w, _ => "FAIL:" ++ w
     pure { model := (match m with | some r => showResCodes r | none => "unmodelled"), spec := sp,
            branch := op ++ ":" ++ e.ts.name ++ ":" ++ fracTag e.dur ++ ":" ++ yearTag e.dur e.ts }
+  | "tz_rt", [_kind, e, off] => do
+    -- C10: "the RFC 3339 rendering of a UTC epoch parses back to it", the rendering carrying any offset of whole minutes
+    -- within +/-23:59 (spec only; other offsets cannot be written as +hh:mm: nothing is demanded)
+    let e ← parseEp? e
+    let off ← parseDur? off
+    let sp := if sval off % 60000000000 != 0 || sval off < -86340000000000 || sval off > 86340000000000 || e.ts != TS.UTC then "na" else match impl with
+      | .ok [_, r] => verdict [("identical_epoch", r == showEp e)]
+      | .ok _ => "FAIL:decode"
+      | .other w => "FAIL:" ++ w
+    pure { model := "-", spec := sp, branch := "tz_rt:" ++ fracTag e.dur }
   | "ert", [kind, e] => do
     let e ← parseEp? e
     let m : Option (Res Ep) := (modelText kind e).map (fun t => bindR t (fun cs =>
